@@ -19,6 +19,8 @@ CONSTANTS Insts,       \* set of operator instances
           MaxSteps,    \* harness actions after Subscribe
           MaxPerSrc,   \* notifications per source (terminal included)
           Cuts,        \* BOOLEAN: also enumerate an Unsubscribe at every position
+          SyncEnds,    \* set of choices [s, k] for a source that ends (k = "C" / "E") SYNCHRONOUSLY, inside its own subscription (s = 0: none):
+                       \* the other sources must be handled as if the terminal had arrived right after Subscribe (C14: nothing is leaked)
           PanicSrcs    \* set of choices for the source whose teardown panics (0 = none): C03, a panicking teardown does not stop the others
 
 Mark(s, j) == IF s = 1 THEN <<"i10", "i11", "i12", "i13">>[j + 1] ELSE IF s = 2 THEN <<"i20", "i21", "i22", "i23">>[j + 1] ELSE <<"i30", "i31", "i32", "i33">>[j + 1]
@@ -28,9 +30,10 @@ VARIABLES m,        \* the operator instance
           st,       \* operator state (record below)
           phase, closed, unsub, log, h,
           sent,     \* sent[s]: notifications source s has emitted so far
-          psrc      \* the source whose teardown panics (0 = none); it changes nothing in what must be observed
+          psrc,     \* the source whose teardown panics (0 = none); it changes nothing in what must be observed
+          sync      \* the source that ends synchronously while being subscribed ([s |-> 0] = none)
 
-vars == <<m, st, phase, closed, unsub, log, h, sent, psrc>>
+vars == <<m, st, phase, closed, unsub, log, h, sent, psrc, sync>>
 Srcs == 1..m.k
 
 Obs(d, cl, s2) == [log |-> d, closed |-> cl,
@@ -42,15 +45,27 @@ Init ==
   /\ st = St0 /\ phase = "new" /\ closed = FALSE /\ unsub = FALSE /\ log = <<>> /\ h = <<>>
   /\ sent = [s \in 1..3 |-> 0]
   /\ psrc \in {x \in PanicSrcs : x <= m.k}
+  /\ sync \in {x \in SyncEnds : x.s <= m.k}
+
+SyncNotif == IF sync.k = "E" THEN E(sync.s, SubCtx \cup {TMark(sync.s)}) ELSE C(SubCtx \cup {TMark(sync.s)})
 
 Subscribe ==
   /\ phase = "new"
   /\ LET s2 == SubStF(m, [st EXCEPT !.live = Srcs, !.subs = Srcs]) IN
-     /\ st' = s2
-     /\ log' = log \o SubOutF(m)
-     /\ h' = Append(h, [do |-> "sub", src |-> 0, n |-> C({}), exp |-> Obs(SubOutF(m), FALSE, s2)])
+     IF sync.s = 0
+       THEN /\ st' = s2
+            /\ log' = log \o SubOutF(m)
+            /\ h' = Append(h, [do |-> "sub", src |-> 0, n |-> C({}), exp |-> Obs(SubOutF(m), FALSE, s2)])
+            /\ UNCHANGED closed
+       ELSE \* the terminal of the synchronous source is processed with every source subscribed (a source the operator no longer needs
+            \* may also never be subscribed at all - the replayer accepts both; what it never accepts is a source left subscribed)
+            LET a == ArriveF(m, s2, FALSE, sync.s, SyncNotif) IN
+            /\ st' = a.st
+            /\ log' = log \o SubOutF(m) \o a.out
+            /\ closed' = a.closed
+            /\ h' = Append(h, [do |-> "sub", src |-> sync.s, n |-> SyncNotif, exp |-> Obs(SubOutF(m) \o a.out, a.closed, a.st)])
   /\ phase' = "run"
-  /\ UNCHANGED <<m, closed, unsub, sent, psrc>>
+  /\ UNCHANGED <<m, unsub, sent, psrc, sync>>
 
 Push(s, n) ==
   /\ phase = "run" /\ Len(h) <= MaxSteps /\ s \in Srcs
@@ -61,7 +76,7 @@ Push(s, n) ==
         /\ closed' = a.closed
         /\ h' = Append(h, [do |-> "push", src |-> s, n |-> n, exp |-> Obs(a.out, a.closed, a.st)])
   /\ sent' = [sent EXCEPT ![s] = @ + 1]
-  /\ UNCHANGED <<m, phase, unsub, psrc>>
+  /\ UNCHANGED <<m, phase, unsub, psrc, sync>>
 
 Unsub ==
   /\ Cuts /\ phase = "run" /\ ~unsub /\ Len(h) <= MaxSteps
@@ -69,7 +84,7 @@ Unsub ==
      /\ st' = s2
      /\ h' = Append(h, [do |-> "unsub", src |-> 0, n |-> C({}), exp |-> Obs(<<>>, TRUE, s2)])
   /\ unsub' = TRUE /\ closed' = TRUE
-  /\ UNCHANGED <<m, phase, log, sent, psrc>>
+  /\ UNCHANGED <<m, phase, log, sent, psrc, sync>>
 
 Notifs(s) == {N(10 * s + sent[s], SubCtx \cup {Mark(s, sent[s])}), E(s, SubCtx \cup {TMark(s)}), C(SubCtx \cup {TMark(s)})}
 
@@ -86,5 +101,5 @@ Grammar == \A j \in 1..Len(Outer) : j < Len(Outer) => Outer[j].k = "N"
 ClosedReleasesAll == closed => st.live = {}
 TypeOK == st.live \cap st.torn = {} /\ st.live \cap st.ended = {}
 
-EmitCase == Done => PrintT(ToJson([m |-> m, steps |-> h, panic |-> psrc]))
+EmitCase == Done => PrintT(ToJson([m |-> m, steps |-> h, panic |-> psrc, sync |-> sync.s]))
 =============================================================================
